@@ -90,6 +90,8 @@ func renderTV(v tv, rng *rand.Rand) *string {
 		return nil
 	case "malformed":
 		return idp.S(malformedTimes[rng.Intn(len(malformedTimes))])
+	case "ancient":
+		return idp.S([]string{"0001-01-01T00:00:00Z", "0001-01-01T00:00:00.000Z", "0001-01-01T00:00:00+00:00", "0001-01-01T05:30:00+05:30"}[rng.Intn(4)])
 	}
 	return idp.S(RenderInstant(world.Tick(v.T), rng))
 }
